@@ -7,6 +7,7 @@
 #include <igris/container/cyclic_buffer.h>
 #include <igris/container/ring.h>
 #include <igris/datastruct/ring.h>
+#include "C03_c_api.h"
 #include <igris/datastruct/ring_counter.h>
 
 #include <deque>
@@ -107,6 +108,16 @@ namespace
                     k++;
                 }
                 if (k != m.size()) violate("C03/for-each", "%s: ring_for_each yields %zu elements, model %zu", where, k, m.size());
+                {
+                    // the same queries and the same walk as expanded by the C compiler
+                    if (c03_c_avail(&r) != m.size() || c03_c_room(&r) != capacity - m.size() || (c03_c_empty(&r) != 0) != m.empty() || (c03_c_full(&r) != 0) != (m.size() == capacity))
+                        violate("C03/avail", "%s: compiled as C, ring_avail=%u ring_room=%u, model %zu of %zu", where, c03_c_avail(&r), c03_c_room(&r), m.size(), capacity);
+                    std::vector<unsigned char> w(m.size() + 2);
+                    int nw = c03_c_walk(&r, buf, w.data(), (int)m.size() + 1);
+                    if (nw != (int)m.size()) violate("C03/for-each", "%s: compiled as C, ring_for_each yields %d elements, model %zu", where, nw, m.size());
+                    for (size_t q = 0; q < m.size(); q++)
+                        if (w[q] != m[q]) violate("C03/content", "%s: compiled as C, element %zu of the walk is %02x, model %02x", where, q, w[q], m[q]);
+                }
                 if (m.size() == capacity) { was_full = true; }
                 if (m.empty() && seqno > 0) was_empty_after_data = true;
             };
@@ -120,7 +131,7 @@ namespace
                 case 0:
                 {
                     uint8_t b = data_byte(arg(o, 1), 0);
-                    int rc = ring_putc(&r, buf, (char)b);
+                    int rc = (seqno & 1) ? c03_c_putc(&r, buf, (char)b) : ring_putc(&r, buf, (char)b); // (every other call goes through the header as compiled by the C compiler)
                     bool ok = m.size() < capacity;
                     if ((rc != 0) != ok) violate("C03/putc-result", "ring_putc returned %d with %zu of %zu stored", rc, m.size(), capacity);
                     if (ok) { m.push_back(b); seqno++; }
@@ -130,7 +141,7 @@ namespace
                 }
                 case 1:
                 {
-                    int c = ring_getc(&r, buf);
+                    int c = (m.size() & 1) ? c03_c_getc(&r, buf) : ring_getc(&r, buf);
                     if (m.empty())
                     {
                         probe("empty_reject");
@@ -155,7 +166,7 @@ namespace
                     std::vector<char> d(n ? n : 1);
                     for (unsigned i = 0; i < n; i++) d[i] = (char)data_byte(arg(o, 2), (int)i);
                     int rc;
-                    if (kind == 2) rc = ring_write(&r, buf, d.data(), n);
+                    if (kind == 2) rc = (n & 1) ? c03_c_write(&r, buf, d.data(), n) : ring_write(&r, buf, d.data(), n);
                     else
                     {
                         rc = 0;
@@ -177,7 +188,7 @@ namespace
                     size_t can = std::min<size_t>(n, m.size());
                     for (size_t i = 0; i < can; i++)
                         if (m[i] == 0xFF) probe("byte_0xFF_read");
-                    if (kind == 3) rc = ring_read(&r, buf, d.data(), n);
+                    if (kind == 3) rc = (n & 1) ? c03_c_read(&r, buf, d.data(), n) : ring_read(&r, buf, d.data(), n);
                     else
                     {
                         rc = 0;
